@@ -102,7 +102,11 @@ def check_organic(ctx, case):
     # did the embedding keep the stereo? (RDKit's own re-perception)
     chk = Chem.Mol(m3)
     Chem.AssignStereochemistryFrom3D(chk)
-    if Chem.MolToSmiles(chk) != Chem.MolToSmiles(mol):
+    if Chem.MolToSmiles(chk) != Chem.MolToSmiles(mol) or not (
+            chk.GetSubstructMatch(mol, useChirality=True)
+            and mol.GetSubstructMatch(chk, useChirality=True)):
+        # (the canonical string alone is not a reliable witness for E/Z
+        # bonds in rings, see C12)
         ctx.exclude("embedding-changed-stereo")
         return None
     if case.get("perm"):
